@@ -3,6 +3,7 @@
 mod common;
 mod e2;
 mod e3;
+mod e5;
 mod linemodel;
 
 use common::*;
@@ -25,6 +26,7 @@ fn plan_for(prop: &str) -> Option<Plan> {
         "C05" | "C06" | "C19" => Plan { engine: "linebuf", quick_runs: 500_000, thorough_runs: 40_000_000, sweep_every: 25, note: "underlying writes are all-or-nothing (datagram semantics); short writes are not injected; sockets are stubs" },
         "C07" => Plan { engine: "linebuf", quick_runs: 300_000, thorough_runs: 30_000_000, sweep_every: 1, note: "underlying writes are all-or-nothing (datagram semantics); short writes are not injected; sockets are stubs" },
         "C08" | "C09" | "C10" | "C11" | "C15" | "C16" => Plan { engine: "queue", quick_runs: 250_000, thorough_runs: 20_000_000, sweep_every: 0, note: "the wrapped sink is scripted; crossbeam's blocking paths are replaced by simulated waiting; capacity 0 (rendezvous) is excluded from every oracle except no-panic" },
+        "C12" | "C13" | "C14" => Plan { engine: "sockets", quick_runs: 200_000, thorough_runs: 20_000_000, sweep_every: 0, note: "UDP/Unix datagram sockets are in-memory stubs (ledger + injectable result per send); the real kernel socket is not exercised" },
         _ => return None,
     })
 }
@@ -71,6 +73,7 @@ fn main() {
             match plan.engine {
                 "linebuf" => run_batch::<e2::E2>(&ba),
                 "queue" => run_batch::<e3::E3>(&ba),
+                "sockets" => run_batch::<e5::E5>(&ba),
                 _ => 2,
             }
         }
@@ -94,6 +97,7 @@ fn main() {
             match rf.engine.as_str() {
                 "linebuf" => replay::<e2::E2>(&rf, quiet),
                 "queue" => replay::<e3::E3>(&rf, quiet),
+                "sockets" => replay::<e5::E5>(&rf, quiet),
                 other => {
                     eprintln!("HARNESS-ERROR: unknown engine {other}");
                     2
@@ -108,6 +112,8 @@ fn main() {
                 ("queue/C08", selftest::<e3::E3>("C08", seeds, 16, DEFAULT_SEED)),
                 ("queue/C11", selftest::<e3::E3>("C11", seeds, 16, DEFAULT_SEED)),
                 ("queue/C09", selftest::<e3::E3>("C09", seeds, 16, DEFAULT_SEED)),
+                ("sockets/C12", selftest::<e5::E5>("C12", seeds, 16, DEFAULT_SEED)),
+                ("sockets/C14", selftest::<e5::E5>("C14", seeds, 16, DEFAULT_SEED)),
             ] {
                 match r {
                     Ok(n) => println!("selftest {name}: {n} seeds x 2 executions identical"),
